@@ -305,9 +305,19 @@ def replay(scn, steps, inputs, kind, hang_s=3.0, total_s=30.0, verbose=False):
         out['ops_replayed'] = ctl.idx
         out['ops_scheduled'] = len(ctl.sched)
         if kind == 'deadlock':
-            out['observed'] = f'hang: driver still blocked {hang_s}s after the schedule' if alive else \
-                f'no hang: driver finished with {result.get("status")}'
-            out['reproduced'] = alive and ctl.diverged is None
+            left = [t.name for t in ctl.threads if t.is_alive()]
+            if alive:
+                out['observed'] = f'hang: driver still blocked {hang_s}s after the schedule'
+            elif left:
+                # the driver is done but threads the code started are still there (blocked for good)
+                time.sleep(max(0.0, hang_s - (time.time() - t_sched)))
+                left = [t.name for t in ctl.threads if t.is_alive()]
+                out['observed'] = (f'driver finished with {result.get("status")} but threads are still alive '
+                                   f'{hang_s}s after the schedule: {left}') if left else \
+                    f'no hang: driver finished with {result.get("status")}'
+            else:
+                out['observed'] = f'no hang: driver finished with {result.get("status")}'
+            out['reproduced'] = (alive or bool(left)) and ctl.diverged is None
         elif kind == 'fail':
             st = result.get('status')
             out['observed'] = f'driver: {st}' if st else 'driver did not finish'
